@@ -51,6 +51,6 @@ for c in checks:
             Path(m.group(1)).unlink()
 meta["confirmed"] = {"demo_exit_with_change": with_change, "demo_exit_without_change": without_change, "suite_with_change": suite_line,
                      "checks_run": "./check <id> --tier quick with PAMIQ_REPO=<scratch worktree with the change applied>", "check_results": results,
-                     "caught": any(r["exit"] != 0 for r in results.values())}
+                     "caught": any(r["exit"] != 0 and any(l.startswith("VIOLATION") for l in r["lines"]) for r in results.values())}   # a check that dies without a VIOLATION line has reported nothing
 (out / "meta.json").write_text(json.dumps(meta, indent=1))
 print(json.dumps(meta["confirmed"], indent=1))
